@@ -23,6 +23,7 @@ type Config struct {
 	SolverBin     []string
 	ShadowBin     []string
 	NoIfConv      bool
+	SmtLog        string
 	MapOrderNondet bool
 }
 
@@ -534,14 +535,10 @@ func (p *Path) indexRead(idx *Term, it types.Type, elems []Value) Value {
 			break
 		}
 	}
-	if !allScalar || n > 64 {
+	if !allScalar || n > 512 {
 		return copyVal(elems[int(p.concretize(i64))])
 	}
-	res := elems[n-1].(*Term)
-	for i := n - 2; i >= 0; i-- {
-		res = tt.Ite(tt.Eq(i64, tt.BVC(64, uint64(i))), elems[i].(*Term), res)
-	}
-	return res
+	return p.iteTable(i64, elems)
 }
 
 func (fr *frame) prepareCall(call *ssa.CallCommon) (fn Value, args []Value) {
